@@ -4,7 +4,7 @@
    Char/AnyDelimited, NoopFramer), of the Sink side and of the poll_next state machine (spec/Framing.tla):
    the writer receives exactly the enclosed frames; decoded list = encoded list for every fragmentation of
    the byte stream (also with a spurious empty read, a read error, a poll after the end); against a hostile
-   peer every extraction step is Frame | NeedMore | the one named panic, every frame lies inside the buffer,
+   peer every extraction step is Frame | NeedMore | an error, every frame lies inside the buffer,
    a progress measure strictly decreases on every step and no state but the final ones lacks a successor.
    spec/Ancillary.tla does the same for the CMSG_SPACE/CMSG_LEN accounting of the control-message builder
    and iterator.
@@ -27,7 +27,7 @@ LEVEL = "model_checking"
 TITLE = "Framing and ancillary codecs: round-trip and hostile-input safety"
 TEXT = ("TLC explores, on a transcription of every built-in framer's enclose/extract, of Framed's sink and of its "
         "poll_next state machine, every fragmentation of every small frame list and every short hostile byte string "
-        "(lengths symbolic: small(n) | huge | wraps-usize) and checks round trip, in-range indexing, a strictly "
+        "(lengths symbolic: small(n) | huge | wraps-usize) and checks round trip, in-range indexing, no panic, a strictly "
         "decreasing progress measure and deadlock freedom; a second model does the same for the CMSG_SPACE accounting "
         "of the ancillary builder/iterator. Every printed behaviour is replayed on the real framers, Framed over "
         "scripted I/O and AncillaryBuilder/AncillaryIter, event by event against the model and against the property "
@@ -197,32 +197,35 @@ def run(run, tier, replay):
 
             # ---- 1. model checking (all runs in parallel, <= 4 TLC workers in total) ----
             T = 900 if quick else 1700
-            RT_ONLY = ("IdleExtractPanics", "IdleExtractErr", "PollPoisoned", "ReadDataLazy")
+            # actions of the pinned (unrepaired) code fire only in the control configurations
+            OLD = ("IdleExtractPanics", "PollPoisoned")
+            RT_ONLY = OLD + ("IdleExtractErr", "PollErrored", "PollAfterFailed", "ReadDataLazy")
             if quick:
-                mcplan = [("Framing", "MC_Framing.cfg", 1, ("ReadErr", "PollAfterDone")),
-                          ("Framing", "MC_Framing_env.cfg", 1, ("IdleExtractPanics",)),
+                mcplan = [("Framing", "MC_Framing.cfg", 1, OLD + ("ReadErr", "PollAfterDone", "PollAfterFailed")),
+                          ("Framing", "MC_Framing_env.cfg", 1, OLD),
                           ("Ancillary", "MC_Ancillary.cfg", 1, ())]
             else:
                 mcplan = [("Framing", "MC_Framing_thorough.cfg", 1, RT_ONLY),
                           ("Framing", "MC_Framing_hostile_thorough.cfg", 1,
-                           ("StartSend", "WriteSome", "WriteDone", "Close", "ReadData", "ReadErr", "PollAfterDone")),
-                          ("Framing", "MC_Framing_env.cfg", 1, ("IdleExtractPanics",)),
+                           OLD + ("StartSend", "WriteSome", "WriteDone", "Close", "ReadData", "ReadErr", "PollAfterDone",
+                                  "PollAfterFailed")),
+                          ("Framing", "MC_Framing_env.cfg", 1, OLD),
                           ("Framing", "MC_Framing_trunc.cfg", 1, RT_ONLY + ("ReadErr", "PollAfterDone")),
                           ("Ancillary", "MC_Ancillary_thorough.cfg", 1, ())]
             mc = {}
             for module, cfg, w, ign in mcplan:
                 mc["%s/%s" % (module, cfg)] = pool.submit(_timed, cfg, _mc, module, cfg, workers=w, timeout=T,
                                                          deadlock=True, ignore_zero=ign, jvm=JVM)
-            # non-vacuity controls: without the named deviation the strict invariant must fail
-            # (quick: the deviation actions must have fired in the model, see below, and the replay must find
-            #  the deviations on the real code with the model predicting the same events)
+            # controls: with the switch of a repaired defect set to the pinned behaviour (Fix... = FALSE) and
+            # without the remaining named deviation the strict invariant must fail
             controls = []
             if not quick:
-                controls += [("Framing", "MC_Framing_strict.cfg", "NoPanic"),
-                             ("Framing", "MC_Framing_trunc_strict.cfg", "RoundTrip"),
+                controls += [("Framing", "MC_Framing_strict.cfg", "NoPanic"),          # FixExtractOverflow = FALSE
+                             ("Framing", "MC_Framing_strict2.cfg", "NoPanic"),         # FixFramerError = FALSE
+                             ("Framing", "MC_Framing_trunc_strict.cfg", "RoundTrip"),  # EncloseTruncates (still known)
                              ("Framing", "MC_Framing_lfl0.cfg", "Progress"),
-                             ("Ancillary", "MC_Ancillary_strict.cfg", "DataSliceExact"),
-                             ("Ancillary", "MC_Ancillary_strict2.cfg", "NoPanic")]
+                             ("Ancillary", "MC_Ancillary_strict.cfg", "DataSliceExact"),     # FixDataSlice = FALSE
+                             ("Ancillary", "MC_Ancillary_strict2.cfg", "IterNeverPanics")]   # FixIterShort = FALSE
             ctl = [pool.submit(_mc, m, c, expect=e, workers=1, timeout=600, coverage=False, jvm=JVM) for m, c, e in controls]
 
             # ---- 2. behaviours ----
@@ -247,11 +250,11 @@ def run(run, tier, replay):
             for name, f in mc.items():
                 r = f.result()
                 run.add_model(name, r)
-            # the named deviations of the read machine are reachable in the checked model (else the
-            # "modulo known" invariants would be vacuous)
-            for act in ("IdleExtractPanics", "IdleExtractErr", "PollPoisoned"):
+            # the error arm of the read machine (framer error, then the stream ends) is reachable in the checked
+            # model, else NoPanic / Progress would say nothing about it
+            for act in ("IdleExtractErr", "PollErrored"):
                 if not any(f.result().coverage.get(act, (0, 0))[1] > 0 for f in mc.values()):
-                    raise vlib.ToolError("Framing: the deviation action %s never fired in any checked model" % act)
+                    raise vlib.ToolError("Framing: the action %s never fired in any checked model" % act)
             for f in ctl:
                 f.result()
             run.note("strict_controls_violated_as_required", ["%s/%s:%s" % c for c in controls])
